@@ -429,20 +429,17 @@ TEARDOWN_CONTRACT
  *   the n-th destroy call destroys g_wline if and only if n == g_wseq, and only after the n-th write,
  * and the thread's postcondition says g_write_calls == g_destroy_calls == g_accepted.  As g_wseq is arbitrary: line n
  * is written by write call n and by no other, destroyed by destroy call n and by no other, for every n < g_accepted.
- * The bounded unit switches g_bgt_bounded on: then at most g_bgt_max_lines lines are ever accepted and from the
- * g_bgt_max_syncs-th synchronisation point on `finished` is set and no line arrives any more. */
+ * (Unwinding the thread's loops under these contracts does not scale - every replaced call adds write-set objects,
+ * 15 unwound iterations exceed 2^10 objects - so the bounded companion unit, units/C14/log_channel_thread.c, uses C stubs
+ * with the same abstract view instead.) */
 size_t g_accepted, g_base_p, g_base_l, g_sync_calls, g_wseq, g_local_inits, g_local_cleanups;
 struct aws_string *g_wline;
 struct aws_array_list *g_local;     /* the thread's private list (set by the init contract) */
 struct aws_log_writer *g_bgt_writer; /* the channel's writer */
-bool g_bgt_bounded;
-size_t g_bgt_max_lines, g_bgt_max_syncs;
 #define BGT_GHOST_RESET()                                                                                              \
     do {                                                                                                               \
         g_accepted = g_base_p = g_base_l = g_sync_calls = g_local_inits = g_local_cleanups = 0;                        \
         g_local = NULL;                                                                                                \
-        g_bgt_bounded = false;                                                                                         \
-        g_bgt_max_lines = g_bgt_max_syncs = 0;                                                                         \
     } while (0)
 #define BGT_LINE_SZ (sizeof(struct aws_string *))
 #define BGT_IS_LIST(l) ((l) == g_local || ((l) == g_pending && g_locked))
@@ -457,10 +454,7 @@ size_t g_bgt_max_lines, g_bgt_max_syncs;
     __CPROVER_ensures(g_sync_calls == OLD(g_sync_calls) + 1)                                                           \
     __CPROVER_ensures(g_pending->length >= OLD(g_pending->length) && g_accepted >= OLD(g_accepted))                    \
     __CPROVER_ensures(g_accepted - OLD(g_accepted) == g_pending->length - OLD(g_pending->length))                      \
-    __CPROVER_ensures(OLD(g_pending->length) == 0 ? g_base_p == OLD(g_accepted) : g_base_p == OLD(g_base_p))           \
-    __CPROVER_ensures(g_bgt_bounded ==> g_accepted <= g_bgt_max_lines)                                                 \
-    __CPROVER_ensures(g_bgt_bounded && g_sync_calls >= g_bgt_max_syncs ==>                                             \
-                      *g_finished_flag && g_pending->length == OLD(g_pending->length))
+    __CPROVER_ensures(OLD(g_pending->length) == 0 ? g_base_p == OLD(g_accepted) : g_base_p == OLD(g_base_p))
 
 int bgt_lock_contract(struct aws_mutex *mutex)
 __CPROVER_requires(mutex == g_mutex && !g_locked && "the channel's own mutex, not held yet")
@@ -759,7 +753,6 @@ __CPROVER_requires(g_bgt_writer == BGT_CH(thread_data)->writer)
 __CPROVER_requires(!g_locked && g_lock_calls == 0 && g_unlock_calls == 0 && g_sync_calls == 0)
 __CPROVER_requires(g_write_calls == 0 && g_destroy_calls == 0 && g_local_inits == 0 && g_local_cleanups == 0)
 __CPROVER_requires(g_base_p == 0 && g_accepted == BGT(thread_data)->pending_log_lines.length)
-__CPROVER_requires(g_bgt_bounded ==> g_accepted <= g_bgt_max_lines)
 __CPROVER_assigns(BGT(thread_data)->pending_log_lines, BGT(thread_data)->finished)
 __CPROVER_assigns(g_locked, g_lock_calls, g_unlock_calls, g_sync_calls, g_accepted, g_base_p, g_base_l)
 __CPROVER_assigns(g_local, g_local_inits, g_local_cleanups, g_write_calls, g_destroy_calls, g_last_error, g_raise_count)
